@@ -32,7 +32,8 @@
 From Coq Require Import List ZArith NArith Bool.
 Import ListNotations.
 From LC Require Import Base BaseFacts Tree Fp Api ScanAction FlexEngine Tokens Lexer Reader Regex RegexFacts Bisim
-  ScannerSpec ScannerCert ClassCheck ClassCert LiteralFacts RoundFacts LexRound LexWrite ParseWrite WriteStable RoundExample Parser Writer WriterFacts Run.
+  ScannerSpec ScannerCert ClassCheck ClassCert LiteralFacts RoundFacts LexRound LexWrite ParseWrite WriteStable RoundExample Parser Writer WriterFacts Run
+  FloatDec FloatStable.
 From LC.gen Require Import Consts ScannerTables.
 Local Open Scope Z_scope.
 
@@ -244,6 +245,57 @@ Proof.
   split; [exact A|]. split; [exact B|]. exact (second_write fd atof FS c c2 kids f h l fi Hroot Hk Hw Hs Hst Hn Hso).
 Qed.
 Print Assumptions C01_roundtrip.
+
+
+(* ---- (9) in fixed notation (the default: scientific notation is an option) the stability hypothesis is a THEOREM ----
+   For every finite double and every precision, when the %f rendering is not cut (it fits the 60 characters that
+   libconfig_format_double keeps: finding F1 otherwise), rendering, reading the text back with strtod and rendering again
+   gives the same text.  The proof (FloatStable.v) is the grid argument over Z: printf renders the grid point r nearest
+   to x (ties to even), strtod returns the double y nearest to r (RoundSpec.v), x is itself a double, hence
+   |y - r| <= |x - r| and y rounds back to r; format_double's post-processing (strip zeros / append ".0") does not
+   change the number.  No bound on the precision. *)
+Theorem C01_float_stable_fixed : forall b prec,
+  b64_is_finite b = true -> (length (fmt_f prec b) <= 60)%nat ->
+  let t := format_double b prec false 64 in
+  format_double (strtod_bits t) prec false 64 = t.
+Proof. exact fixed_notation_stable. Qed.
+Print Assumptions C01_float_stable_fixed.
+
+(* so, with scientific notation off, "stable" follows from: integer formats 0 or 1, floats finite and not cut *)
+Theorem C01_stable_fixed : forall c, get_option c OPT_SCI = false ->
+  forall s, fixed_ok c s -> stable fmt_double atof c s.
+Proof. exact stable_fixed. Qed.
+Print Assumptions C01_stable_fixed.
+
+(* the property, both clauses, with glibc-exact printf / strtod and no stability hypothesis: fixed notation *)
+Theorem C01_roundtrip_fixed : forall FS c c2 kids f h l fi,
+  c_root c = Setting None PGroup kids f h l fi -> kids <> [] ->
+  get_option c OPT_SCI = false ->
+  writable fmt_double atof c (c_root c) -> pstruct (c_root c) -> fixed_ok c (c_root c) ->
+  nest_of (flat_map (piece_tok fmt_double atof c) (pieces c (c_root c) 0) ++ [TkEOF]) 0 0 <= NEST_LIMIT ->
+  same_out c c2 ->
+  let r := config_read atof FS c2 None (config_write fmt_double c) in
+  rd_out_ r = RdOk /\
+  obs (c_root (rd_cfg r)) = ON None PGroup 0 (map (fun m => nobs fmt_double atof c (s_name m) m) kids) /\
+  config_write fmt_double (rd_cfg r) = config_write fmt_double c.
+Proof.
+  intros FS c c2 kids f h l fi Hroot Hk Hsci Hw Hs Hfx Hn Hso.
+  exact (C01_roundtrip fmt_double atof FS c c2 kids f h l fi Hroot Hk Hw Hs (stable_fixed c Hsci _ Hfx) Hn Hso).
+Qed.
+Print Assumptions C01_roundtrip_fixed.
+
+(* ... and its hypotheses are satisfiable: the example configuration below is in fixed notation and fixed_ok *)
+Example C01_fixed_hypotheses_satisfiable : get_option ex_cfg OPT_SCI = false /\ fixed_ok ex_cfg ex_root.
+Proof.
+  split; [vm_compute; reflexivity|]. cbn [fixed_ok ex_root].
+  repeat split; auto; try (vm_compute; reflexivity); try (apply Nat.leb_le; vm_compute; reflexivity).
+Qed.
+
+(* the length hypothesis is needed: -1.5e59 at precision 6 is cut and is not stable (finding F1) *)
+Theorem C01_cut_is_unstable :
+  let b := 14715482615620799058 in
+  length (fmt_f 6 b) = 68%nat /\ b64_is_finite b = true /\ ~ rerender b 6.
+Proof. exact cut_is_unstable. Qed.
 
 
 (* ---- the hypotheses are satisfiable: a configuration with every scalar type, an escaped string, a NULL string,
